@@ -149,7 +149,7 @@ def io_events(calls, out_path, arch_path):
             off = pos.get(p, 0)
             # coalesce a continuation of the previous operation of the same kind (short read / partial write)
             l = last.get(p)
-            if l is not None and l["ev"] == call and l["role"] == ro and l["off"] + l["len"] == off and ((call == "read" and ro == "archive") or (call == "write" and ro == "output" and l["len"] >= (1 << 20))):
+            if l is not None and l["ev"] == call and l["role"] == ro and l["off"] + l["len"] == off and (call == "write" and ro == "output" and l["len"] >= (1 << 20)):
                 # continuation: a short read of the archive, or tokio splitting a write larger than its 2 MiB buffer
                 l["len"] += r
             elif r > 0 or call == "write":
@@ -167,7 +167,7 @@ def io_events(calls, out_path, arch_path):
     return evs
 
 
-def normalise_writes(evs, slots):
+def normalise_writes(evs, slots, kind="write", role="output"):
     """Projection of output writes onto the source's chunk slots [(offset, length)], so that HOW a chunk reaches its place does not matter:
     a write that is a concatenation of whole slots becomes one write per slot; pieces that lie inside one slot are gathered (any order) and
     handed on as one write of the slot when they cover it exactly without overlapping; overlapping pieces and slots left incomplete are handed
@@ -186,7 +186,7 @@ def normalise_writes(evs, slots):
         return so if off + ln <= so + by_off[so] else None
 
     for e in evs:
-        if not (e["ev"] == "write" and e["role"] == "output" and e["len"] > 0):
+        if not (e["ev"] == kind and e["role"] == role and e["len"] > 0):
             out.append(e)
             continue
         off, ln = e["off"], e["len"]
@@ -218,6 +218,11 @@ def normalise_writes(evs, slots):
     for so in sorted(pending):
         out.extend(pending[so]["raw"])
     return out
+
+
+def normalise(evs, slots, stored):
+    """writes onto the source's chunk slots, reads of a local archive onto the stored ranges of its descriptors (pieces merged, concatenations split)"""
+    return normalise_writes(normalise_writes(evs, slots), stored, kind="read", role="archive")
 
 
 def main():
@@ -311,6 +316,7 @@ def main():
         d, arch = ctx.compress(source)
         src_chunks = pydecode.source_chunks(d)
         slots = [(o, s_) for (h, o, s_) in src_chunks]
+        stored = sorted({(d["data_off"] + c["aoff"], c["asz"]) for c in d["descs"]})
         ids = {}
         for (h, o, s) in src_chunks:
             ids.setdefault(h, len(ids) + 1)
@@ -435,7 +441,7 @@ def main():
                 open(out, "wb").write(prior)
             code, msg, calls, http = run_once()
             nrun += 1
-            evs = [scen_ev] + [e for e in normalise_writes(io_events(calls, out, ap_), slots) if not (e["ev"] == "read" and e["role"] == "output")] + [{"ev": "http", "first": x[0], "last": x[1], "cut": x[2], "tok": x[3]} for x in http] + [after_ev(code, msg), {"ev": "done"}]
+            evs = [scen_ev] + [e for e in normalise(io_events(calls, out, ap_), slots, stored) if not (e["ev"] == "read" and e["role"] == "output")] + [{"ev": "http", "first": x[0], "last": x[1], "cut": x[2], "tok": x[3]} for x in http] + [after_ev(code, msg), {"ev": "done"}]
             for e in evs:
                 w.write(json.dumps(e) + "\n")
         elif a.mode == "httpfaults":
@@ -458,7 +464,7 @@ def main():
             args[:] = saved
             nrun += 1
             ev0 = dict(scen_ev, transport="http", httpfault={"budget": budget, "cuts": cuts})
-            evs = [ev0] + [e for e in normalise_writes(io_events(calls, out, ap_), slots) if e["role"] == "output"] + [{"ev": "http", "first": x[0], "last": x[1], "cut": x[2], "tok": x[3]} for x in http] + [after_ev(code, msg), {"ev": "done"}]
+            evs = [ev0] + [e for e in normalise(io_events(calls, out, ap_), slots, stored) if e["role"] == "output"] + [{"ev": "http", "first": x[0], "last": x[1], "cut": x[2], "tok": x[3]} for x in http] + [after_ev(code, msg), {"ev": "done"}]
             for e in evs:
                 w.write(json.dumps(e) + "\n")
         elif a.mode in ("plain", "stdin"):
@@ -466,7 +472,7 @@ def main():
                 open(out, "wb").write(prior)
             code, msg, calls, http = run_once()
             nrun += 1
-            evs = [scen_ev] + normalise_writes(io_events(calls, out, ap_), slots) + [{"ev": "http", "first": x[0], "last": x[1], "cut": x[2], "tok": x[3]} for x in http] + [after_ev(code, msg), {"ev": "done"}]
+            evs = [scen_ev] + normalise(io_events(calls, out, ap_), slots, stored) + [{"ev": "http", "first": x[0], "last": x[1], "cut": x[2], "tok": x[3]} for x in http] + [after_ev(code, msg), {"ev": "done"}]
             for e in evs:
                 w.write(json.dumps(e) + "\n")
         else:
@@ -514,7 +520,7 @@ def main():
                 args[:] = saved
                 ev0 = dict(scen_ev, fault=fc, writes=W, out_found=[[ids[h], o, s] for (h, o, s) in found2 if h in ids], inplace=True, first_exit=code, first_msg=msg,
                            prior_len=len(mid), kind="regular" if kind == "new" else kind)
-                evs = [ev0] + normalise_writes(io_events(calls2, out, ap_), slots) + [{"ev": "http", "first": x[0], "last": x[1], "cut": x[2], "tok": x[3]} for x in http2] + [after_ev(code2, msg2), {"ev": "done"}]
+                evs = [ev0] + normalise(io_events(calls2, out, ap_), slots, stored) + [{"ev": "http", "first": x[0], "last": x[1], "cut": x[2], "tok": x[3]} for x in http2] + [after_ev(code2, msg2), {"ev": "done"}]
                 for e in evs:
                     w.write(json.dumps(e) + "\n")
         if not os.environ.get("L2_KEEP"):
